@@ -73,6 +73,7 @@ class Env:
         self.loop = VLoop()
         self.loop.install()
         self.gates = {}
+        self.barriers = {}
 
     async def gate(self, tag):
         fut = self.loop.create_future()
@@ -133,6 +134,15 @@ def make_handler(env):
             self.invoked.append(("doomed", tag))
             await env.gate(tag)
             return ("doomed", tag)
+
+        @allow_rpc
+        async def barrier(self, tag, k):
+            # many calls wait for one event (as wait_for_idle / wait_for_update do) and complete
+            # in the same loop iteration when it is set
+            self.invoked.append(("barrier", tag, k))
+            ev = env.barriers.setdefault(tag, asyncio.Event())
+            await ev.wait()
+            return ("barrier", tag, k)
 
         @allow_rpc
         async def usage(self, tag):
@@ -431,6 +441,8 @@ def jobs(tier, seed):
         out.append({"part": "garbage", "calls": calls, "tier": tier})
     out.append({"part": "client", "tier": tier})
     out.append({"part": "sync", "tier": tier})
+    for sizes in ([2, 17, 64, 65], [100, 257], [1000] if tier == "quick" else [1000, 5000]):
+        out.append({"part": "burst", "sizes": sizes, "tier": tier})
     return out
 
 
@@ -742,6 +754,59 @@ def run_sync(spec, acc):
     acc.sample({"sync_cases": sorted(cases)})
 
 
+def run_burst(spec, acc):
+    """N calls in flight on one connection that complete in the same loop iteration (they wait
+    for one event), delivered in one piece or one message per feed; before or after, further
+    ordinary calls. Every call gets exactly one reply with its own value."""
+    from stepup.core.rpc import RPCServerConnection
+
+    for n in spec["sizes"]:
+        for piecewise in (False, True):
+            for tail in (0, 3):
+                env = Env()
+                try:
+                    handler = make_handler(env)
+                    msgs = [encode_call(i + 1, "barrier", "b", i) for i in range(n)]
+                    msgs += [encode_call(n + 1 + j, "echo", j) for j in range(tail)]
+                    reader = asyncio.StreamReader(loop=env.loop)
+                    writer = Writer()
+                    conn = RPCServerConnection(handler, reader, writer)
+                    serve = env.loop.create_task(conn.serve())
+                    if piecewise:
+                        for m in msgs:
+                            reader.feed_data(m)
+                            env.settle()
+                    else:
+                        reader.feed_data(b"".join(msgs))
+                        env.settle()
+                    env.barriers.setdefault("b", asyncio.Event()).set()
+                    env.settle()
+                    reader.feed_eof()
+                    env.settle()
+                    acc.evaluations += 1
+                    acc.transitions += n + tail + 2
+                    acc.nontrivial.add(h8(["burst", n, piecewise, tail]))
+                    frames = {}
+                    for cid, body in writer.frames():
+                        frames.setdefault(cid, []).append(body)
+                    missing = [i + 1 for i in range(n + tail) if len(frames.get(i + 1, [])) == 0]
+                    dup = [cid for cid, fr in frames.items() if len(fr) > 1]
+                    wrong = []
+                    for i in range(n):
+                        fr = frames.get(i + 1)
+                        if fr and len(fr) == 1 and fr[0] is not None and pickle.loads(fr[0]) != ("barrier", "b", i):
+                            wrong.append(i + 1)
+                    if missing or dup or wrong:
+                        acc.violation(f"C16|server|burst|{'missing' if missing else 'dup' if dup else 'wrong'}",
+                                      {"why": "calls completing in one burst did not each get exactly one reply",
+                                       "calls_in_flight": n, "piecewise": piecewise, "extra_calls": tail,
+                                       "unanswered": missing[:10], "n_unanswered": len(missing),
+                                       "duplicates": dup[:10], "mispaired": wrong[:10],
+                                       "unhandled": [str(c.get("message")) for c in env.loop.unhandled][:3]}, None)
+                finally:
+                    env.close()
+
+
 def run_job(spec):
     import logging
 
@@ -762,6 +827,8 @@ def run_job(spec):
         run_client(spec, acc)
     elif part == "sync":
         run_sync(spec, acc)
+    elif part == "burst":
+        run_burst(spec, acc)
     return acc
 
 
